@@ -29,7 +29,10 @@ LOOKALIKES = [b'2023-02-30 00:00:00 x', b'0000-00-00 00:00:00 y',
               b'2022-01-01 23:59:60 v', b'99999-01-01 00:00:00 u',
               b'2021-02-29 12:00:00 t', b'2022-04-31 01:02:03 s',
               b'2022-00-10 01:02:03 r', b'1' * 5000, b'2022-01-1',
-              b'2022-01-10 05:0']
+              b'2022-01-10 05:0',
+              b'99999999999999999999-01-01 00:00:00 huge year',
+              b'2022-01-09 10:00:99999999999999999999 huge seconds',
+              b'2022-1-9 1:2:3 narrow fields', b'02022-001-011 010:000:000 p']
 BAD = [b'\xff', b'\xc3', b'\xe2\x82', b'\xf0\x9f\x98', b'\x80abc',
        b'\xed\xa0\x80', b'\xc0\xaf']
 
@@ -120,19 +123,23 @@ def make_case(rng, base, idx, big):
     run = {'global': 0 if use_global else None, 'decode_errors': policy,
            'max_parallel_tasks': 4, 'adds': adds, 'new_searcher': True}
     recipe = {'dir': d, 'constraints': cons, 'defs': defs, 'runs': [run]}
+    if rng.random() < 0.4:
+        recipe['matcher'] = 'wide'      # timestamp fields of any width
     return recipe, {'class': cls, 'data': data, 'policy': policy,
+                    'wide': recipe.get('matcher') == 'wide',
                     'global': use_global and not restricted,
                     'nfiles': nfiles}
 
 
-def well_formed_for_seek(data, since):
+def well_formed_for_seek(data, since, wide=False):
     """ inside C04's hypotheses: dated lines non-decreasing, short undated
     runs, short lines -> the position is pinned by the reference """
     last, run_ = None, 0
     for ln in G.split_lines(data):
         if len(ln) > 10000:
             return False
-        ts = G.line_ts(ln[:64].decode('utf-8', errors='backslashreplace'))
+        ts = G.line_ts(ln[:64].decode('utf-8', errors='backslashreplace'),
+                       wide)
         if ts is None:
             run_ += 1
             if run_ > 100:
@@ -165,8 +172,8 @@ def judge(chk, recipe, meta, o, cases, wants, metas):
         pinned = 0
     else:
         since = G.since_secs(recipe['constraints'][0])
-        if well_formed_for_seek(data, since):
-            pos = G.first_in_window(data, since)
+        if well_formed_for_seek(data, since, meta['wide']):
+            pos = G.first_in_window(data, since, meta['wide'])
             off, pinned = 0, len(lines)
             for i, ln in enumerate(lines):
                 if off >= pos:
